@@ -10,10 +10,12 @@ use std::io::Write;
 
 mod d_cf;
 mod d_cfg;
+mod d_dlint;
 mod d_embed;
 mod d_entry;
 mod d_pipe;
 mod d_rx;
+mod d_rxv8;
 mod d_scan;
 mod d_sel;
 
@@ -123,8 +125,10 @@ fn main() {
     "scan" => d_scan::run(&args),
     "cf" => d_cf::run(&args),
     "rx" => d_rx::run(&args),
+    "rxv8" => d_rxv8::run(&args),
     "embed" => d_embed::run(&args),
     "cfg" => d_cfg::run(&args),
+    "dlint" => d_dlint::run_all(&args),
     x => {
       eprintln!("unknown sub {}", x);
       std::process::exit(2);
